@@ -258,8 +258,28 @@ theorem isJsonNumberBytes_renderInt (i : Int) : isJsonNumberBytes (renderInt i) 
   unfold isJsonNumber
   rw [numValue_complete (renderInt_denotes i)]; rfl
 
-/-- what is assumed of the ryu oracle: the text shipped for a finite REAL is a JSON number -/
+mutual
+/-- all REAL bit patterns of a value (the cell itself or array elements at any depth) -/
+def allReals : Value → List Nat
+  | .real b => [b]
+  | .array _ xs => allRealsList xs
+  | _ => []
+def allRealsList : List Value → List Nat
+  | [] => []
+  | x :: xs => allReals x ++ allRealsList xs
+end
+
+/-- what is assumed of the ryu oracle, for the REALs of one value: the text shipped for each finite REAL
+is a JSON number (decidable; the `print` driver evaluates it on every case) -/
+def RealTextsOk (o : RealOracle) (v : Value) : Prop :=
+  ∀ b ∈ allReals v, isFinite b = true → isJsonNumberBytes (o.json b) = true
+
+instance (o : RealOracle) : DecidablePred (RealTextsOk o) := fun v => by unfold RealTextsOk; infer_instance
+
+/-- the same for every REAL whatsoever -/
 def RealTextOk (o : RealOracle) : Prop := ∀ b, isFinite b = true → isJsonNumberBytes (o.json b) = true
+
+theorem RealTextOk.value {o : RealOracle} (h : RealTextOk o) (v : Value) : RealTextsOk o v := fun b _ hf => h b hf
 
 /-! ### cell documents -/
 
@@ -346,40 +366,43 @@ theorem renderInterval_ascii (n : Int) : Ascii (renderInterval n) := by
 
 mutual
 /-- every cell document the printer builds is printed as a `value` of the grammar that denotes the cell -/
-theorem cell_renders (o : RealOracle) (ho : RealTextOk o) : ∀ v : Value, (∀ s ∈ allTexts v, IsUtf8 s) →
+theorem cell_renders (o : RealOracle) : ∀ v : Value, RealTextsOk o v → (∀ s ∈ allTexts v, IsUtf8 s) →
     ∃ x, CellDoc o v x ∧ Renders (jsonValue o v) x
-  | .null, _ => ⟨_, .null, renders_null⟩
-  | .int i, _ => ⟨_, .int i, renders_num (renderInt_ascii i) (renderInt_denotes i)⟩
-  | .real b, _ => by
+  | .null, _, _ => ⟨_, .null, renders_null⟩
+  | .int i, _, _ => ⟨_, .int i, renders_num (renderInt_ascii i) (renderInt_denotes i)⟩
+  | .real b, ho, _ => by
     simp only [jsonValue]
     cases hf : isFinite b with
     | true =>
-      obtain ⟨ha, d, hd, hD⟩ := isJsonNumberBytes_sound (ho b hf)
+      obtain ⟨ha, d, hd, hD⟩ := isJsonNumberBytes_sound (ho b (by simp [allReals]) hf)
       exact ⟨_, .real hf hd, by simpa using renders_num ha hD⟩
     | false => exact ⟨_, .realNonFinite hf, by simpa using renders_null⟩
-  | .bool b, _ => ⟨_, .bool b, renders_bool b⟩
-  | .text s, h => by
+  | .bool b, _, _ => ⟨_, .bool b, renders_bool b⟩
+  | .text s, _, h => by
     obtain ⟨cs, hcs⟩ := h s (by simp [allTexts])
     subst hcs
     exact ⟨_, .text rfl, renders_str cs⟩
-  | .array _ xs, h => by
-    obtain ⟨ys, h1, h2⟩ := cells_render o ho xs (by simpa [allTexts] using h)
+  | .array _ xs, ho, h => by
+    obtain ⟨ys, h1, h2⟩ := cells_render o xs (by simpa [RealTextsOk, allReals] using ho) (by simpa [allTexts] using h)
     exact ⟨_, .array h1, by simpa [jsonValue] using renders_arr h2⟩
-  | .timestamp d s f, _ => by
+  | .timestamp d s f, _, _ => by
     have := renders_str (chars (renderTimestamp d s f))
     rw [encode_chars (renderTimestamp_ascii d s f)] at this
     exact ⟨_, .timestamp (encode_chars (renderTimestamp_ascii d s f)), this⟩
-  | .interval n, _ => by
+  | .interval n, _, _ => by
     have := renders_str (chars (renderInterval n))
     rw [encode_chars (renderInterval_ascii n)] at this
     exact ⟨_, .interval (encode_chars (renderInterval_ascii n)), this⟩
-theorem cells_render (o : RealOracle) (ho : RealTextOk o) : ∀ xs : List Value,
+theorem cells_render (o : RealOracle) : ∀ xs : List Value,
+    (∀ b ∈ allRealsList xs, isFinite b = true → isJsonNumberBytes (o.json b) = true) →
     (∀ s ∈ allTextsList xs, IsUtf8 s) →
     ∃ ys, AllRel (CellDoc o) xs ys ∧ AllRel Renders (jsonValues o xs) ys
-  | [], _ => ⟨[], .nil, .nil⟩
-  | x :: xs, h => by
-    obtain ⟨y, h1, h2⟩ := cell_renders o ho x (fun s hs => h s (by simp [allTextsList, hs]))
-    obtain ⟨ys, h3, h4⟩ := cells_render o ho xs (fun s hs => h s (by simp [allTextsList, hs]))
+  | [], _, _ => ⟨[], .nil, .nil⟩
+  | x :: xs, ho, h => by
+    obtain ⟨y, h1, h2⟩ := cell_renders o x (fun b hb => ho b (by simp [allRealsList, hb]))
+      (fun s hs => h s (by simp [allTextsList, hs]))
+    obtain ⟨ys, h3, h4⟩ := cells_render o xs (fun b hb => ho b (by simp [allRealsList, hb]))
+      (fun s hs => h s (by simp [allTextsList, hs]))
     exact ⟨y :: ys, .cons h1 h3, .cons h2 h4⟩
 end
 
@@ -489,8 +512,8 @@ theorem mem_zip_left {α β : Type} {a : α} {b : β} : ∀ {as : List α} {bs :
 
 /-- ANY row under ANY column names (repeated names and rows longer or shorter than the column list
 included): the JSON record the printer emits is the UTF-8 encoding of an `object` of RFC 8259 -/
-theorem record_is_object (o : RealOracle) (ho : RealTextOk o) (cols : List Bytes) (row : List Value)
-    (hcols : ∀ c ∈ cols, IsUtf8 c) (htexts : ∀ v ∈ row, ∀ s ∈ allTexts v, IsUtf8 s) :
+theorem record_is_object (o : RealOracle) (cols : List Bytes) (row : List Value)
+    (ho : ∀ v ∈ row, RealTextsOk o v) (hcols : ∀ c ∈ cols, IsUtf8 c) (htexts : ∀ v ∈ row, ∀ s ∈ allTexts v, IsUtf8 s) :
     ∃ (line : List Char) (ms : List (List Char × JVal)),
       encode line = renderRecord o .json cols row ∧ ObjD line ms := by
   rw [renderRecord_json]
@@ -500,7 +523,7 @@ theorem record_is_object (o : RealOracle) (ho : RealTextOk o) (cols : List Bytes
     simp only [jsonMembers, List.mem_map] at hkv
     obtain ⟨⟨c, v⟩, hmem, rfl⟩ := hkv
     have := mem_zip_left hmem
-    obtain ⟨x, _, hx⟩ := cell_renders o ho v (htexts v this.2)
+    obtain ⟨x, _, hx⟩ := cell_renders o v (ho v this.2) (htexts v this.2)
     exact ⟨hcols c this.1, x, hx⟩
   obtain ⟨ms, hms⟩ := allRel_of_forall (R := MemberRenders) (mapFromList (jsonMembers o cols row)) (by
     intro kv hkv
@@ -536,23 +559,23 @@ theorem allRel_and_left {α β : Type} {R S : α → β → Prop} {as : List α}
   | nil => exact .nil
   | cons h _ ih => exact .cons h.1 ih
 
-theorem rows_render (o : RealOracle) (ho : RealTextOk o) (row : List Value)
+theorem rows_render (o : RealOracle) (row : List Value) (ho : ∀ v ∈ row, RealTextsOk o v)
     (htexts : ∀ v ∈ row, ∀ s ∈ allTexts v, IsUtf8 s) :
     ∃ xs, AllRel (fun v x => CellDoc o v x ∧ Renders (jsonValue o v) x) row xs :=
   allRel_of_forall row (fun v hv => by
-    obtain ⟨x, h1, h2⟩ := cell_renders o ho v (htexts v hv)
+    obtain ⟨x, h1, h2⟩ := cell_renders o v (ho v hv) (htexts v hv)
     exact ⟨x, h1, h2⟩)
 
 /-- distinct column names, one cell per column: the JSON record is the UTF-8 encoding of an `object`
 whose members denote, in order, the column names paired with the cells' JSON values -/
-theorem record_denotes_row (o : RealOracle) (ho : RealTextOk o) (cols : List Bytes) (row : List Value)
-    (hd : cols.Nodup) (hl : cols.length = row.length)
+theorem record_denotes_row (o : RealOracle) (cols : List Bytes) (row : List Value)
+    (ho : ∀ v ∈ row, RealTextsOk o v) (hd : cols.Nodup) (hl : cols.length = row.length)
     (hcols : ∀ c ∈ cols, IsUtf8 c) (htexts : ∀ v ∈ row, ∀ s ∈ allTexts v, IsUtf8 s) :
     ∃ (line : List Char) (names : List (List Char)) (xs : List JVal),
       encode line = renderRecord o .json cols row ∧ ObjD line (names.zip xs)
       ∧ names.map encode = cols ∧ AllRel (CellDoc o) row xs := by
   obtain ⟨names, hnames⟩ := isUtf8_names hcols
-  obtain ⟨xs, hxs⟩ := rows_render o ho row htexts
+  obtain ⟨xs, hxs⟩ := rows_render o row ho htexts
   have hl' : names.length = row.length := by rw [← hl, ← hnames, List.length_map]
   have hm := allRel_zip_members o names row xs hl' hxs
   rw [hnames] at hm
@@ -616,6 +639,23 @@ theorem map_cellOfJVal (o : RealOracle) {row : List Value} {xs : List JVal} (h :
   | @cons v x vs xs h _ ih =>
     simp only [List.map_cons]
     rw [cellOfJVal_cellDoc o v x h (hn v (List.mem_cons_self ..)), ih (fun w hw => hn w (List.mem_cons_of_mem _ hw))]
+
+mutual
+theorem noReal_allReals : ∀ {v : Value}, noReal v = true → allReals v = []
+  | .null, _ => rfl
+  | .int _, _ => rfl
+  | .real _, h => by simp [noReal] at h
+  | .bool _, _ => rfl
+  | .text _, _ => rfl
+  | .array _ xs, h => by simp only [noReal] at h; simp only [allReals, noRealAll_allReals h]
+  | .timestamp _ _ _, _ => rfl
+  | .interval _, _ => rfl
+theorem noRealAll_allReals : ∀ {xs : List Value}, noRealAll xs = true → allRealsList xs = []
+  | [], _ => rfl
+  | x :: xs, h => by
+    simp only [noRealAll, Bool.and_eq_true] at h
+    simp only [allRealsList, noReal_allReals h.1, noRealAll_allReals h.2, List.append_nil]
+end
 
 /-! ### every line of a JSON printer -/
 
